@@ -194,6 +194,9 @@ def calls_C12(g, mb):
     n = G.frs(g.unit_vec())
     p = G.point(g)
     c = ["call COM 1", "call COM0 1", "call KE 1", "call PE 1", "call ZMP %s %s 1" % (n, p)]
+    # every optional output on its own and in random combinations (an output must not depend on which
+    # other outputs were requested)
+    c += ["call COMm %d 1" % k for k in (8, 2, g.r.choice([1, 4]), g.r.randint(1, 15))]
     c += ["poison %d" % g.r.randint(1, 10 ** 6), "call UKC 7", "call COM 0", "call ZMP %s %s 0" % (n, p)]
     return c + props_c12b.calls_fpe(g, mb)
 
